@@ -101,6 +101,10 @@ type parser struct {
 	// ioManips has one element per enclosing io_bind, io_forget_history or
 	// io_limit block: the number of enclosing loops when that block started.
 	ioManips []int
+
+	// iterateVars holds the iteration variables of the enclosing iterate
+	// loops.
+	iterateVars []t.ID
 }
 
 // maxDepth bounds the parser's recursion (nested parentheses, unary operators,
@@ -1044,6 +1048,15 @@ func (p *parser) parseAssignNode() (*a.Node, error) {
 			}
 		}
 
+		if lhs.Operator() == 0 {
+			for _, v := range p.iterateVars {
+				if v == lhs.Ident() {
+					return nil, fmt.Errorf(`parse: cannot assign to iterate variable %q inside its loop at %s:%d`,
+						lhs.Str(p.tm), p.filename, p.line())
+				}
+			}
+		}
+
 		rhs, err = p.parseExpr()
 		if err != nil {
 			return nil, err
@@ -1302,7 +1315,14 @@ func (p *parser) parseIterateNode() (*a.Node, error) {
 	if err != nil {
 		return nil, err
 	}
+	// The generated code advances the iteration variables itself, at the end
+	// of each body, assuming that the body left them alone.
+	nIterateVars := len(p.iterateVars)
+	for _, o := range assigns {
+		p.iterateVars = append(p.iterateVars, o.AsAssign().LHS().Ident())
+	}
 	n, err := p.parseIterateBlock(label, assigns)
+	p.iterateVars = p.iterateVars[:nIterateVars]
 	if err != nil {
 		return nil, err
 	}
